@@ -4,10 +4,26 @@
   Theorems relate the model (`Rl/LineBuffer.lean`, tied to the code by `./check C04`) to the
   declarative spec (`Rl/Spec/Motion.lean`, the oracle that `./check C04` evaluates on the
   implementation), for every lawful segmenter.
+  * targets: character motions, word motions (anchors Start / AfterEnd, backward), line start/end,
+    character searches (`C04_char_search_*`), vertical motion (`C04_moveToLine*_dest`, `…_column_partial`);
+  * spans: `C04_kill_<movement>_is_span` / `C04_copy_<movement>_is_span` for every movement except
+    `ViFirstPrint` (known finding, counter-examples below), assembled in `C04_kill_is_span_partial` /
+    `C04_copy_is_span_partial`. Two movements need a property of the segmenter that every UAX #29
+    segmenter has but an arbitrary lawful `Segmenter` need not have: `S.Stable` (re-segmenting a run of
+    whole clusters gives the same clusters; used by `T`/`t` searches, which the code answers by
+    re-segmenting a slice) and `S.NlAlone` (the line break is a cluster of its own; used by the
+    whole-line kill of an empty line, which removes "the next cluster").
 -/
 import Rl.LineBuffer
 import Rl.Spec.Motion
 import Rl.Lemmas.Motion
+import Rl.Lemmas.Span
+import Rl.Lemmas.CharSearch
+import Rl.Lemmas.KillSpan
+import Rl.Lemmas.LineSpan
+import Rl.Lemmas.WordSpan
+import Rl.Lemmas.Vertical
+set_option linter.unusedVariables false
 open Rl Rl.Spec
 
 /-- Character motion forward moves by whole clusters: `next_pos(n)` is exactly the declarative
@@ -126,30 +142,340 @@ theorem C04_line_home_end (lb : LB) (h : WF lb) :
     | none => rfl
     | some k => simp [Nat.add_comm]
 
-/-! ### what is NOT true of the current tree -/
+/-! ### character searches -/
 
-/-- FULL statement "a kill with a given movement removes exactly the span the movement names" for
-    every movement, phrased with the executable oracle of `./check C04`. Not a theorem on the current
-    tree: `kill(ViFirstPrint)` is a no-op (known finding F-C04-vi-first-print); proved above for
-    forward/backward word movements (`C04_deleteWord_is_span`, `C04_deletePrevWord_is_span`). -/
-def C04_kill_is_span_statement : Prop :=
-  ∀ (S : Segmenter) (U : UData) (lb lb' : LB) (mvt : Movement) (r : Bool) (ns : List Notif), WF lb →
-    LB.kill S U mvt lb = .ok (r, lb', ns) → checkKill S U lb mvt lb'.buf lb'.pos ns = none
+/-- `f` search (`Forward c`): the model lands on the n-th occurrence of `c` after the cluster under the
+    cursor, whenever there is one. -/
+theorem C04_char_search_forward (S : Segmenter) (lb : LB) (c : Char) (n t : Nat) (h : WF lb) (hn : n ≠ 0)
+    (ht : charSearchTarget S lb.buf lb.pos (.forward c) n = some t) :
+    LB.searchCharPos S lb (.forward c) n = .ok (some t) :=
+  searchCharPos_forward_eq S lb c n t h hn ht
 
-/-- FULL statement for copies (same remark; proved for forward word movements: `C04_copy_word_is_span`) -/
-def C04_copy_is_span_statement : Prop :=
-  ∀ (S : Segmenter) (U : UData) (lb : LB) (mvt : Movement) (r : Option Text), WF lb →
-    LB.copy S U lb mvt = .ok r → checkCopy S U lb mvt (.optText r) = none
+/-- `F` search (`Backward c`): the n-th occurrence before the cursor. -/
+theorem C04_char_search_backward (S : Segmenter) (lb : LB) (c : Char) (n t : Nat) (h : WF lb) (hn : n ≠ 0)
+    (ht : charSearchTarget S lb.buf lb.pos (.backward c) n = some t) :
+    LB.searchCharPos S lb (.backward c) n = .ok (some t) :=
+  searchCharPos_backward_eq S lb c n t h hn ht
 
-/-- FULL statement for character searches (model target = declarative target); not yet proved -/
+/-- FULL statement for character searches (model target = declarative target: on / one whole cluster
+    before / one whole cluster after the n-th occurrence). Kept as a `def`: for `t` / `T` the code
+    re-segments a slice of the buffer, which agrees with the cluster boundaries of the whole text only for
+    a segmenter that is stable under cutting at its own boundaries (`C04_char_search_partial`). -/
 def C04_char_search_statement : Prop :=
   ∀ (S : Segmenter) (lb : LB) (cs : CharSearch) (n : Nat) (t : Nat), WF lb → n ≠ 0 →
     charSearchTarget S lb.buf lb.pos cs n = some t → LB.searchCharPos S lb cs n = .ok (some t)
 
+/-- The char-search statement for every stable segmenter (all four kinds, every count ≥ 1). -/
+theorem C04_char_search_partial (S : Segmenter) (hS : S.Stable) (lb : LB) (cs : CharSearch) (n t : Nat)
+    (h : WF lb) (hn : n ≠ 0) (ht : charSearchTarget S lb.buf lb.pos cs n = some t) :
+    LB.searchCharPos S lb cs n = .ok (some t) :=
+  searchCharPos_eq_target S hS lb cs n t h hn ht
 
+/-- a lawful but unstable segmenter: texts of at most two characters are one cluster, longer texts are
+    cut into single characters -/
+def C04_oddSeg : Segmenter where
+  seg t := if t = [] then [] else if t.length ≤ 2 then [t] else t.map (fun c => [c])
+  flatten_eq := by
+    intro t
+    by_cases h0 : t = []
+    · simp [h0]
+    · by_cases h2 : t.length ≤ 2
+      · simp [h0, h2]
+      · simp only [h0, h2, if_false]
+        have key : ∀ u : Text, (u.map (fun c => [c])).flatten = u := by
+          intro u
+          induction u with
+          | nil => rfl
+          | cons c u ih => simp [ih]
+        exact key t
+  ne_nil := by
+    intro t g hg
+    by_cases h0 : t = []
+    · simp [h0] at hg
+    · by_cases h2 : t.length ≤ 2
+      · simp [h0, h2] at hg; subst hg; exact h0
+      · simp only [h0, h2, if_false] at hg
+        obtain ⟨c, _, rfl⟩ := List.mem_map.mp hg
+        simp
+
+/-- the full char-search statement is false for some lawful segmenter: "abc", `tc` from 0 — the clusters of
+    the whole text are a|b|c (target 1), the slice "ab" the code re-segments is one cluster (lands on 0) -/
+theorem C04_char_search_counterexample : ¬ C04_char_search_statement := by
+  intro h
+  have := h C04_oddSeg ⟨['a', 'b', 'c'], 0, 16, false⟩ (.forwardBefore 'c') 1 1 (isBoundary_zero _) (by decide)
+    (by rfl)
+  have e : LB.searchCharPos C04_oddSeg ⟨['a', 'b', 'c'], 0, 16, false⟩ (.forwardBefore 'c') 1 = .ok (some 0) := by rfl
+  rw [e] at this
+  simp at this
+
+/-- the extra hypothesis is satisfiable by the segmenter the driver runs: every left-to-right grouping
+    segmenter whose state restarts at a break — in particular the UAX #29 one — is stable -/
+theorem C04_uaxSeg_stable (cls : Char → String) : (uaxSeg cls).Stable := uaxSeg_stable cls
+
+theorem C04_uaxSeg_nlAlone (cls : Char → String) (h : cls '\n' = "LF") : (uaxSeg cls).NlAlone :=
+  uaxSeg_nlAlone cls h
+
+/-! ### a kill removes, and a copy returns, exactly the span the movement names
+
+  Each theorem says: whatever the kill returned, the new text is the old text without the declarative
+  span, the text reported to the listener is the text of the span, and the cursor is at the span start
+  (`checkKill … = none`); resp. the copy returned the text of the span (`checkCopy … = none`). -/
+
+theorem C04_kill_forwardChar_is_span (S : Segmenter) (U : UData) (lb lb' : LB) (n : Nat) (r : Bool)
+    (ns : List Notif) (h : WF lb) (hrun : LB.kill S U (.forwardChar n) lb = .ok (r, lb', ns)) :
+    checkKill S U lb (.forwardChar n) lb'.buf lb'.pos ns = none :=
+  kill_forwardChar_is_span S U lb lb' n r ns h hrun
+
+theorem C04_kill_backwardChar_is_span (S : Segmenter) (U : UData) (lb lb' : LB) (n : Nat) (r : Bool)
+    (ns : List Notif) (h : WF lb) (hrun : LB.kill S U (.backwardChar n) lb = .ok (r, lb', ns)) :
+    checkKill S U lb (.backwardChar n) lb'.buf lb'.pos ns = none :=
+  kill_backwardChar_is_span S U lb lb' n r ns h hrun
+
+/-- `C-k` / `D`: to the end of the line; with nothing left on the line, the line break (next cluster) -/
+theorem C04_kill_endOfLine_is_span (S : Segmenter) (U : UData) (lb lb' : LB) (r : Bool)
+    (ns : List Notif) (h : WF lb) (hrun : LB.kill S U .endOfLine lb = .ok (r, lb', ns)) :
+    checkKill S U lb .endOfLine lb'.buf lb'.pos ns = none :=
+  kill_endOfLine_is_span S U lb lb' r ns h hrun
+
+/-- `C-u` / `d0`: to the start of the line; at the line start, the preceding cluster (joins the lines) -/
+theorem C04_kill_beginningOfLine_is_span (S : Segmenter) (U : UData) (lb lb' : LB) (r : Bool)
+    (ns : List Notif) (h : WF lb) (hrun : LB.kill S U .beginningOfLine lb = .ok (r, lb', ns)) :
+    checkKill S U lb .beginningOfLine lb'.buf lb'.pos ns = none :=
+  kill_beginningOfLine_is_span S U lb lb' r ns h hrun
+
+/-- whole-line kill: the line without its break; an empty line loses its line break (this is where the
+    line break must be a cluster of its own: the code removes "one cluster") -/
+theorem C04_kill_wholeLine_is_span (S : Segmenter) (U : UData) (hnl : S.NlAlone) (lb lb' : LB) (r : Bool)
+    (ns : List Notif) (h : WF lb) (hrun : LB.kill S U .wholeLine lb = .ok (r, lb', ns)) :
+    checkKill S U lb .wholeLine lb'.buf lb'.pos ns = none :=
+  kill_wholeLine_is_span S U hnl lb lb' r ns h hrun
+
+/-- `dk`: the current line and the n lines above, with exactly one adjoining line break -/
+theorem C04_kill_lineUp_is_span (S : Segmenter) (U : UData) (lb lb' : LB) (n : Nat) (r : Bool)
+    (ns : List Notif) (h : WF lb) (hrun : LB.kill S U (.lineUp n) lb = .ok (r, lb', ns)) :
+    checkKill S U lb (.lineUp n) lb'.buf lb'.pos ns = none :=
+  kill_lineUp_is_span S U lb lb' n r ns h hrun
+
+/-- `dj`: the current line and the n lines below, with exactly one adjoining line break -/
+theorem C04_kill_lineDown_is_span (S : Segmenter) (U : UData) (lb lb' : LB) (n : Nat) (r : Bool)
+    (ns : List Notif) (h : WF lb) (hrun : LB.kill S U (.lineDown n) lb = .ok (r, lb', ns)) :
+    checkKill S U lb (.lineDown n) lb'.buf lb'.pos ns = none :=
+  kill_lineDown_is_span S U lb lb' n r ns h hrun
+
+theorem C04_kill_endOfBuffer_is_span (S : Segmenter) (U : UData) (lb lb' : LB) (r : Bool)
+    (ns : List Notif) (h : WF lb) (hrun : LB.kill S U .endOfBuffer lb = .ok (r, lb', ns)) :
+    checkKill S U lb .endOfBuffer lb'.buf lb'.pos ns = none :=
+  kill_endOfBuffer_is_span S U lb lb' r ns h hrun
+
+theorem C04_kill_beginningOfBuffer_is_span (S : Segmenter) (U : UData) (lb lb' : LB) (r : Bool)
+    (ns : List Notif) (h : WF lb) (hrun : LB.kill S U .beginningOfBuffer lb = .ok (r, lb', ns)) :
+    checkKill S U lb .beginningOfBuffer lb'.buf lb'.pos ns = none :=
+  kill_beginningOfBuffer_is_span S U lb lb' r ns h hrun
+
+theorem C04_kill_wholeBuffer_is_span (S : Segmenter) (U : UData) (lb lb' : LB) (r : Bool)
+    (ns : List Notif) (h : WF lb) (hrun : LB.kill S U .wholeBuffer lb = .ok (r, lb', ns)) :
+    checkKill S U lb .wholeBuffer lb'.buf lb'.pos ns = none :=
+  kill_wholeBuffer_is_span S U lb lb' r ns h hrun
+
+/-- `df` / `dt` / `dF`: from the cursor to (and with, for `f`) the n-th occurrence — for every lawful segmenter -/
+theorem C04_kill_charSearch_forward_is_span (S : Segmenter) (U : UData) (lb lb' : LB) (n : Nat) (c : Char)
+    (r : Bool) (ns : List Notif) (h : WF lb)
+    (hrun : LB.kill S U (.viCharSearch n (.forward c)) lb = .ok (r, lb', ns)) :
+    checkKill S U lb (.viCharSearch n (.forward c)) lb'.buf lb'.pos ns = none :=
+  kill_viCharSearch_forward_is_span S U lb lb' n c r ns h hrun
+
+theorem C04_kill_charSearch_forwardBefore_is_span (S : Segmenter) (U : UData) (lb lb' : LB) (n : Nat) (c : Char)
+    (r : Bool) (ns : List Notif) (h : WF lb)
+    (hrun : LB.kill S U (.viCharSearch n (.forwardBefore c)) lb = .ok (r, lb', ns)) :
+    checkKill S U lb (.viCharSearch n (.forwardBefore c)) lb'.buf lb'.pos ns = none :=
+  kill_viCharSearch_forwardBefore_is_span S U lb lb' n c r ns h hrun
+
+theorem C04_kill_charSearch_backward_is_span (S : Segmenter) (U : UData) (lb lb' : LB) (n : Nat) (c : Char)
+    (r : Bool) (ns : List Notif) (h : WF lb)
+    (hrun : LB.kill S U (.viCharSearch n (.backward c)) lb = .ok (r, lb', ns)) :
+    checkKill S U lb (.viCharSearch n (.backward c)) lb'.buf lb'.pos ns = none :=
+  kill_viCharSearch_backward_is_span S U lb lb' n c r ns h hrun
+
+/-- every char-search kill (incl. `dT`, which needs the stable segmenter) -/
+theorem C04_kill_charSearch_is_span (S : Segmenter) (U : UData) (hS : S.Stable) (lb lb' : LB) (n : Nat)
+    (cs : CharSearch) (r : Bool) (ns : List Notif) (h : WF lb)
+    (hrun : LB.kill S U (.viCharSearch n cs) lb = .ok (r, lb', ns)) :
+    checkKill S U lb (.viCharSearch n cs) lb'.buf lb'.pos ns = none :=
+  kill_viCharSearch_is_span S U hS lb lb' n cs r ns h hrun
+
+/-- word kills in oracle form (decomposition form: `C04_deleteWord_is_span`, `C04_deletePrevWord_is_span`) -/
+theorem C04_kill_forwardWord_is_span (S : Segmenter) (U : UData) (lb lb' : LB) (n : Nat) (a : At) (d : Word)
+    (r : Bool) (ns : List Notif) (h : WF lb) (hrun : LB.kill S U (.forwardWord n a d) lb = .ok (r, lb', ns)) :
+    checkKill S U lb (.forwardWord n a d) lb'.buf lb'.pos ns = none :=
+  kill_forwardWord_is_span S U lb lb' n a d r ns h hrun
+
+theorem C04_kill_backwardWord_is_span (S : Segmenter) (U : UData) (lb lb' : LB) (n : Nat) (d : Word)
+    (r : Bool) (ns : List Notif) (h : WF lb) (hrun : LB.kill S U (.backwardWord n d) lb = .ok (r, lb', ns)) :
+    checkKill S U lb (.backwardWord n d) lb'.buf lb'.pos ns = none :=
+  kill_backwardWord_is_span S U lb lb' n d r ns h hrun
+
+/-- FULL statement "a kill with a given movement removes exactly the span the movement names" for
+    every movement and every lawful segmenter, phrased with the executable oracle of `./check C04`.
+    Not a theorem on the current tree: `kill(ViFirstPrint)` is a no-op (known finding
+    F-C04-vi-first-print, `C04_kill_viFirstPrint_counterexample`). -/
+def C04_kill_is_span_statement : Prop :=
+  ∀ (S : Segmenter) (U : UData) (lb lb' : LB) (mvt : Movement) (r : Bool) (ns : List Notif), WF lb →
+    LB.kill S U mvt lb = .ok (r, lb', ns) → checkKill S U lb mvt lb'.buf lb'.pos ns = none
+
+/-- The kill statement for EVERY movement except `ViFirstPrint` (every count, word definition, anchor,
+    char search), for every segmenter that is stable and keeps the line break alone. -/
+theorem C04_kill_is_span_partial (S : Segmenter) (U : UData) (hS : S.Stable) (hnl : S.NlAlone)
+    (lb lb' : LB) (mvt : Movement) (r : Bool) (ns : List Notif) (h : WF lb) (hm : mvt ≠ .viFirstPrint)
+    (hrun : LB.kill S U mvt lb = .ok (r, lb', ns)) : checkKill S U lb mvt lb'.buf lb'.pos ns = none := by
+  cases mvt with
+  | viFirstPrint => exact absurd rfl hm
+  | wholeLine => exact kill_wholeLine_is_span S U hnl lb lb' r ns h hrun
+  | beginningOfLine => exact kill_beginningOfLine_is_span S U lb lb' r ns h hrun
+  | endOfLine => exact kill_endOfLine_is_span S U lb lb' r ns h hrun
+  | backwardWord n d => exact kill_backwardWord_is_span S U lb lb' n d r ns h hrun
+  | forwardWord n a d => exact kill_forwardWord_is_span S U lb lb' n a d r ns h hrun
+  | viCharSearch n cs => exact kill_viCharSearch_is_span S U hS lb lb' n cs r ns h hrun
+  | backwardChar n => exact kill_backwardChar_is_span S U lb lb' n r ns h hrun
+  | forwardChar n => exact kill_forwardChar_is_span S U lb lb' n r ns h hrun
+  | lineUp n => exact kill_lineUp_is_span S U lb lb' n r ns h hrun
+  | lineDown n => exact kill_lineDown_is_span S U lb lb' n r ns h hrun
+  | wholeBuffer => exact kill_wholeBuffer_is_span S U lb lb' r ns h hrun
+  | beginningOfBuffer => exact kill_beginningOfBuffer_is_span S U lb lb' r ns h hrun
+  | endOfBuffer => exact kill_endOfBuffer_is_span S U lb lb' r ns h hrun
+
+theorem C04_copy_forwardChar_is_span (S : Segmenter) (U : UData) (lb : LB) (n : Nat) (r : Option Text)
+    (h : WF lb) (hrun : LB.copy S U lb (.forwardChar n) = .ok r) :
+    checkCopy S U lb (.forwardChar n) (.optText r) = none :=
+  copy_forwardChar_is_span S U lb n r h hrun
+
+theorem C04_copy_backwardChar_is_span (S : Segmenter) (U : UData) (lb : LB) (n : Nat) (r : Option Text)
+    (h : WF lb) (hrun : LB.copy S U lb (.backwardChar n) = .ok r) :
+    checkCopy S U lb (.backwardChar n) (.optText r) = none :=
+  copy_backwardChar_is_span S U lb n r h hrun
+
+theorem C04_copy_wholeLine_is_span (S : Segmenter) (U : UData) (lb : LB) (r : Option Text)
+    (h : WF lb) (hrun : LB.copy S U lb .wholeLine = .ok r) :
+    checkCopy S U lb .wholeLine (.optText r) = none :=
+  copy_wholeLine_is_span S U lb r h hrun
+
+theorem C04_copy_beginningOfLine_is_span (S : Segmenter) (U : UData) (lb : LB) (r : Option Text)
+    (h : WF lb) (hrun : LB.copy S U lb .beginningOfLine = .ok r) :
+    checkCopy S U lb .beginningOfLine (.optText r) = none :=
+  copy_beginningOfLine_is_span S U lb r h hrun
+
+theorem C04_copy_endOfLine_is_span (S : Segmenter) (U : UData) (lb : LB) (r : Option Text)
+    (h : WF lb) (hrun : LB.copy S U lb .endOfLine = .ok r) :
+    checkCopy S U lb .endOfLine (.optText r) = none :=
+  copy_endOfLine_is_span S U lb r h hrun
+
+theorem C04_copy_lineUp_is_span (S : Segmenter) (U : UData) (lb : LB) (n : Nat) (r : Option Text)
+    (h : WF lb) (hrun : LB.copy S U lb (.lineUp n) = .ok r) :
+    checkCopy S U lb (.lineUp n) (.optText r) = none :=
+  copy_lineUp_is_span S U lb n r h hrun
+
+theorem C04_copy_lineDown_is_span (S : Segmenter) (U : UData) (lb : LB) (n : Nat) (r : Option Text)
+    (h : WF lb) (hrun : LB.copy S U lb (.lineDown n) = .ok r) :
+    checkCopy S U lb (.lineDown n) (.optText r) = none :=
+  copy_lineDown_is_span S U lb n r h hrun
+
+theorem C04_copy_endOfBuffer_is_span (S : Segmenter) (U : UData) (lb : LB) (r : Option Text)
+    (h : WF lb) (hrun : LB.copy S U lb .endOfBuffer = .ok r) :
+    checkCopy S U lb .endOfBuffer (.optText r) = none :=
+  copy_endOfBuffer_is_span S U lb r h hrun
+
+theorem C04_copy_beginningOfBuffer_is_span (S : Segmenter) (U : UData) (lb : LB) (r : Option Text)
+    (h : WF lb) (hrun : LB.copy S U lb .beginningOfBuffer = .ok r) :
+    checkCopy S U lb .beginningOfBuffer (.optText r) = none :=
+  copy_beginningOfBuffer_is_span S U lb r h hrun
+
+theorem C04_copy_wholeBuffer_is_span (S : Segmenter) (U : UData) (lb : LB) (r : Option Text)
+    (h : WF lb) (hrun : LB.copy S U lb .wholeBuffer = .ok r) :
+    checkCopy S U lb .wholeBuffer (.optText r) = none :=
+  copy_wholeBuffer_is_span S U lb r h hrun
+
+theorem C04_copy_charSearch_forward_is_span (S : Segmenter) (U : UData) (lb : LB) (n : Nat) (c : Char)
+    (r : Option Text) (h : WF lb) (hrun : LB.copy S U lb (.viCharSearch n (.forward c)) = .ok r) :
+    checkCopy S U lb (.viCharSearch n (.forward c)) (.optText r) = none :=
+  copy_viCharSearch_forward_is_span S U lb n c r h hrun
+
+theorem C04_copy_charSearch_forwardBefore_is_span (S : Segmenter) (U : UData) (lb : LB) (n : Nat) (c : Char)
+    (r : Option Text) (h : WF lb) (hrun : LB.copy S U lb (.viCharSearch n (.forwardBefore c)) = .ok r) :
+    checkCopy S U lb (.viCharSearch n (.forwardBefore c)) (.optText r) = none :=
+  copy_viCharSearch_forwardBefore_is_span S U lb n c r h hrun
+
+theorem C04_copy_charSearch_backward_is_span (S : Segmenter) (U : UData) (lb : LB) (n : Nat) (c : Char)
+    (r : Option Text) (h : WF lb) (hrun : LB.copy S U lb (.viCharSearch n (.backward c)) = .ok r) :
+    checkCopy S U lb (.viCharSearch n (.backward c)) (.optText r) = none :=
+  copy_viCharSearch_backward_is_span S U lb n c r h hrun
+
+theorem C04_copy_charSearch_is_span (S : Segmenter) (U : UData) (hS : S.Stable) (lb : LB) (n : Nat)
+    (cs : CharSearch) (r : Option Text) (h : WF lb) (hrun : LB.copy S U lb (.viCharSearch n cs) = .ok r) :
+    checkCopy S U lb (.viCharSearch n cs) (.optText r) = none :=
+  copy_viCharSearch_is_span S U hS lb n cs r h hrun
+
+theorem C04_copy_forwardWord_is_span (S : Segmenter) (U : UData) (lb : LB) (n : Nat) (a : At) (d : Word)
+    (r : Option Text) (h : WF lb) (hrun : LB.copy S U lb (.forwardWord n a d) = .ok r) :
+    checkCopy S U lb (.forwardWord n a d) (.optText r) = none :=
+  copy_forwardWord_is_span S U lb n a d r h hrun
+
+theorem C04_copy_backwardWord_is_span (S : Segmenter) (U : UData) (lb : LB) (n : Nat) (d : Word)
+    (r : Option Text) (h : WF lb) (hrun : LB.copy S U lb (.backwardWord n d) = .ok r) :
+    checkCopy S U lb (.backwardWord n d) (.optText r) = none :=
+  copy_backwardWord_is_span S U lb n d r h hrun
+
+/-- FULL statement for copies; not a theorem on the current tree: `copy(ViFirstPrint)` measures from the
+    first non-blank of the BUFFER, not of the current line (`C04_copy_viFirstPrint_counterexample`). -/
+def C04_copy_is_span_statement : Prop :=
+  ∀ (S : Segmenter) (U : UData) (lb : LB) (mvt : Movement) (r : Option Text), WF lb →
+    LB.copy S U lb mvt = .ok r → checkCopy S U lb mvt (.optText r) = none
+
+/-- The copy statement for EVERY movement except `ViFirstPrint`, for every stable segmenter. -/
+theorem C04_copy_is_span_partial (S : Segmenter) (U : UData) (hS : S.Stable) (lb : LB) (mvt : Movement)
+    (r : Option Text) (h : WF lb) (hm : mvt ≠ .viFirstPrint) (hrun : LB.copy S U lb mvt = .ok r) :
+    checkCopy S U lb mvt (.optText r) = none := by
+  cases mvt with
+  | viFirstPrint => exact absurd rfl hm
+  | wholeLine => exact copy_wholeLine_is_span S U lb r h hrun
+  | beginningOfLine => exact copy_beginningOfLine_is_span S U lb r h hrun
+  | endOfLine => exact copy_endOfLine_is_span S U lb r h hrun
+  | backwardWord n d => exact copy_backwardWord_is_span S U lb n d r h hrun
+  | forwardWord n a d => exact copy_forwardWord_is_span S U lb n a d r h hrun
+  | viCharSearch n cs => exact copy_viCharSearch_is_span S U hS lb n cs r h hrun
+  | backwardChar n => exact copy_backwardChar_is_span S U lb n r h hrun
+  | forwardChar n => exact copy_forwardChar_is_span S U lb n r h hrun
+  | lineUp n => exact copy_lineUp_is_span S U lb n r h hrun
+  | lineDown n => exact copy_lineDown_is_span S U lb n r h hrun
+  | wholeBuffer => exact copy_wholeBuffer_is_span S U lb r h hrun
+  | beginningOfBuffer => exact copy_beginningOfBuffer_is_span S U lb r h hrun
+  | endOfBuffer => exact copy_endOfBuffer_is_span S U lb r h hrun
+
+/-! ### what is NOT true of the current tree -/
 
 /-- a small concrete Unicode-data record for counter-examples -/
 def C04_exU : UData := ⟨fun c => c.isAlphanum, fun c => c == ' ', fun c => [c], fun c => [c], fun t => t.length⟩
+
+/-- known finding F-C04-vi-first-print: `kill(ViFirstPrint)` (`d^`) does nothing. Witness "ab", cursor 1:
+    the span `[0,1)` is named, the text is unchanged. -/
+theorem C04_kill_viFirstPrint_counterexample : ¬ C04_kill_is_span_statement := by
+  intro h
+  have := h charSeg C04_exU ⟨['a', 'b'], 1, 16, false⟩ ⟨['a', 'b'], 1, 16, false⟩ .viFirstPrint false
+    [.startKill, .stopKill] ⟨['a'], ['b'], rfl, by decide⟩ (by rfl)
+  have e : checkKill charSeg C04_exU ⟨['a', 'b'], 1, 16, false⟩ .viFirstPrint ['a', 'b'] 1 [.startKill, .stopKill] =
+      some "kill-span" := by rfl
+  rw [e] at this
+  simp at this
+
+/-- known finding F-C04-vi-first-print (copy): `copy(ViFirstPrint)` (`y^`) measures from the first
+    non-blank of the buffer instead of the current line. Witness "a\nbc", cursor 4: returns the whole
+    text instead of "bc". -/
+theorem C04_copy_viFirstPrint_counterexample : ¬ C04_copy_is_span_statement := by
+  intro h
+  have := h charSeg C04_exU ⟨['a', '\n', 'b', 'c'], 4, 16, false⟩ .viFirstPrint (some ['a', '\n', 'b', 'c'])
+    ⟨['a', '\n', 'b', 'c'], [], rfl, by decide⟩ (by rfl)
+  have e : checkCopy charSeg C04_exU ⟨['a', '\n', 'b', 'c'], 4, 16, false⟩ .viFirstPrint
+      (.optText (some ['a', '\n', 'b', 'c'])) = some "copy-span" := by rfl
+  rw [e] at this
+  simp at this
 
 /-- FULL statement for `At::BeforeEnd` (vi `e` / `E`), not a theorem on the current tree -/
 def C04_word_target_beforeEnd_statement : Prop :=
@@ -164,7 +490,170 @@ theorem C04_word_target_beforeEnd_counterexample : ¬ C04_word_target_beforeEnd_
   rw [e1, e2] at this
   simp at this
 
+
+/-! ## vertical motion -/
+
+/-- `move_to_line_up(n)`, `n ≠ 0`, from a well-formed state: on the first line nothing happens;
+    otherwise the destination is the declarative line (`n` lines up, or the first line), the cursor
+    lands inside it, on the cluster boundary with index `min col |line|` where `col` is the display
+    width of the text in front of the cursor on its line, less the prompt width when the destination
+    is the first line. -/
+theorem C04_moveToLineUp_dest (S : Segmenter) (U : UData) (n pc : Nat) (lb lb' : LB) (r : Bool)
+    (ns : List Notif) (h : WF lb) (hn : n ≠ 0) (hrun : LB.moveToLineUp S U n pc lb = .ok (r, lb', ns)) :
+    (verticalDest lb.buf lb.pos n true = none ∧ r = false ∧ lb' = lb) ∨
+    ∃ ds de line cur, verticalDest lb.buf lb.pos n true = some (ds, de) ∧ r = true ∧
+      slice lb.buf ds de = .ok line ∧ slice lb.buf (lineStartOf lb.buf lb.pos) lb.pos = .ok cur ∧
+      lb'.buf = lb.buf ∧ ds ≤ lb'.pos ∧ lb'.pos ≤ de ∧
+      lb'.pos = ds + offOf (S.seg line)
+        (min (U.width cur - (if ds = 0 then pc else 0)) (S.seg line).length) := by
+  rcases vm_moveToLineUp_eval S U n pc lb h hn with ⟨h0, he⟩ | ⟨h0, ds, de, line, cur, hds, hL, hcur, he⟩
+  · left
+    rw [he] at hrun
+    cases hrun
+    exact ⟨by simp [verticalDest, h0], rfl, rfl⟩
+  · right
+    rw [he] at hrun
+    cases hrun
+    refine ⟨ds, de, line, cur, ?_, rfl, hL.slice, hcur, rfl, Nat.le_add_right _ _, ?_, rfl⟩
+    · simp [verticalDest, h0, ← hds, hL.end_start]
+    · have := vm_offOf_le S line (min (U.width cur - (if ds = 0 then pc else 0)) (S.seg line).length)
+      have := hL.le
+      simp only []
+      omega
+
+/-- `move_to_line_down(n)`: same, the column includes the prompt width when the cursor is on the
+    first line, and nothing is subtracted (the destination never is the first line). -/
+theorem C04_moveToLineDown_dest (S : Segmenter) (U : UData) (n pc : Nat) (lb lb' : LB) (r : Bool)
+    (ns : List Notif) (h : WF lb) (hn : n ≠ 0) (hrun : LB.moveToLineDown S U n pc lb = .ok (r, lb', ns)) :
+    (verticalDest lb.buf lb.pos n false = none ∧ r = false ∧ lb' = lb) ∨
+    ∃ ds de line cur, verticalDest lb.buf lb.pos n false = some (ds, de) ∧ r = true ∧
+      slice lb.buf ds de = .ok line ∧ slice lb.buf (lineStartOf lb.buf lb.pos) lb.pos = .ok cur ∧
+      lb'.buf = lb.buf ∧ ds ≤ lb'.pos ∧ lb'.pos ≤ de ∧
+      lb'.pos = ds + offOf (S.seg line)
+        (min (U.width cur + (if lineStartOf lb.buf lb.pos = 0 then pc else 0)) (S.seg line).length) := by
+  rcases vm_moveToLineDown_eval S U n pc lb h hn with ⟨h0, he⟩ | ⟨h0, ds, de, line, cur, hde, hds0, hL, hcur, he⟩
+  · left
+    rw [he] at hrun
+    cases hrun
+    exact ⟨by simp [verticalDest, h0], rfl, rfl⟩
+  · right
+    rw [he] at hrun
+    cases hrun
+    refine ⟨ds, de, line, cur, ?_, rfl, hL.slice, hcur, rfl, Nat.le_add_right _ _, ?_, rfl⟩
+    · have : ¬ blen lb.buf ≤ lineEndOf lb.buf lb.pos := by omega
+      simp [verticalDest, this, ← hde, hL.start_end]
+    · have := vm_offOf_le S line
+        (min (U.width cur + (if lineStartOf lb.buf lb.pos = 0 then pc else 0)) (S.seg line).length)
+      have := hL.le
+      simp only []
+      omega
+
+/-- Column theorem for `move_to_line_up`, under the hypothesis that in the destination line the first
+    `k` clusters are `k` columns wide (no wide, no zero-width clusters): the executable oracle
+    `checkVerticalCol` is satisfied — same display column, or the end of a shorter line, or the start
+    of the first line when the prompt already reaches past the column. -/
+theorem C04_moveToLineUp_column_partial (S : Segmenter) (U : UData) (n pc : Nat) (lb lb' : LB) (r : Bool)
+    (ns : List Notif) (h : WF lb) (hn : n ≠ 0) (hrun : LB.moveToLineUp S U n pc lb = .ok (r, lb', ns))
+    (hw : ∀ ds de line, verticalDest lb.buf lb.pos n true = some (ds, de) → slice lb.buf ds de = .ok line →
+      ∀ k, k ≤ (S.seg line).length → U.width ((S.seg line).take k).flatten = k) :
+    checkVerticalCol S U lb n true pc lb'.pos = none := by
+  rcases vm_moveToLineUp_eval S U n pc lb h hn with ⟨h0, he⟩ | ⟨h0, ds, de, line, cur, hds, hL, hcur, he⟩
+  · rw [he] at hrun
+    cases hrun
+    have hn' : (n == 0) = false := by simp [hn]
+    simp [checkVerticalCol, hn', verticalDest, h0]
+  · rw [he] at hrun
+    cases hrun
+    have hvd : verticalDest lb.buf lb.pos n true = some (ds, de) := by
+      simp [verticalDest, h0, ← hds, hL.end_start]
+    have hc : displayCol U lb.buf lb.pos pc = U.width cur := by
+      simp [displayCol, hcur, h0]
+    exact vm_check S U lb n true pc ds de line (U.width cur) _ hn hvd hL (hw ds de line hvd hL.slice) hc rfl
+
+/-- Column theorem for `move_to_line_down`, same hypothesis on the destination line. -/
+theorem C04_moveToLineDown_column_partial (S : Segmenter) (U : UData) (n pc : Nat) (lb lb' : LB) (r : Bool)
+    (ns : List Notif) (h : WF lb) (hn : n ≠ 0) (hrun : LB.moveToLineDown S U n pc lb = .ok (r, lb', ns))
+    (hw : ∀ ds de line, verticalDest lb.buf lb.pos n false = some (ds, de) → slice lb.buf ds de = .ok line →
+      ∀ k, k ≤ (S.seg line).length → U.width ((S.seg line).take k).flatten = k) :
+    checkVerticalCol S U lb n false pc lb'.pos = none := by
+  rcases vm_moveToLineDown_eval S U n pc lb h hn with ⟨h0, he⟩ | ⟨h0, ds, de, line, cur, hde, hds0, hL, hcur, he⟩
+  · rw [he] at hrun
+    cases hrun
+    have hn' : (n == 0) = false := by simp [hn]
+    simp [checkVerticalCol, hn', verticalDest, h0]
+  · rw [he] at hrun
+    cases hrun
+    have hvd : verticalDest lb.buf lb.pos n false = some (ds, de) := by
+      have : ¬ blen lb.buf ≤ lineEndOf lb.buf lb.pos := by omega
+      simp [verticalDest, this, ← hde, hL.start_end]
+    have hc : displayCol U lb.buf lb.pos pc =
+        U.width cur + (if lineStartOf lb.buf lb.pos = 0 then pc else 0) := by
+      simp [displayCol, hcur]
+    exact vm_check S U lb n false pc ds de line _ _ hn hvd hL (hw ds de line hvd hL.slice) hc
+      (by simp [hds0])
+
+/-! ### what is NOT true of the current tree -/
+
+/-- FULL statement "a vertical motion keeps the display column" (no hypothesis on the widths of the
+    clusters of the destination line), phrased with the executable oracle `checkVerticalCol`.  Not a
+    theorem on the current tree: `move_to_line_up` / `move_to_line_down` use the display *width* of the
+    text in front of the cursor as a *cluster index* into the destination line, so wide (or
+    zero-width) clusters there shift the landing column.  Proved above under the width-1 hypothesis
+    (`C04_moveToLineUp_column_partial`, `C04_moveToLineDown_column_partial`). -/
+def C04_vertical_column_statement_for (up : Bool) : Prop :=
+  ∀ (S : Segmenter) (U : UData) (n pc : Nat) (lb lb' : LB) (r : Bool) (ns : List Notif), WF lb → n ≠ 0 →
+    (if up then LB.moveToLineUp S U n pc lb else LB.moveToLineDown S U n pc lb) = .ok (r, lb', ns) →
+    checkVerticalCol S U lb n up pc lb'.pos = none
+
+def C04_vertical_column_statement : Prop := ∀ up, C04_vertical_column_statement_for up
+
+/-- Unicode data for the counter-example: `'W'` is two columns wide, every other character one -/
+def C04_wideU : UData :=
+  ⟨fun c => c.isAlphanum, fun c => c == ' ', fun c => [c], fun c => [c],
+   fun t => (t.map (fun c => if c == 'W' then 2 else 1)).sum⟩
+
+/-- buffer "WW\nabcd", cursor after "ab" (display column 2), one line up: the model lands at the end of
+    "WW" (display column 4) although display column 2 — after the first 'W' — exists. -/
+theorem C04_vertical_column_counterexample_up : ¬ C04_vertical_column_statement_for true := by
+  intro hall
+  have e1 : LB.moveToLineUp charSeg C04_wideU 1 0 ⟨['W', 'W', '\n', 'a', 'b', 'c', 'd'], 5, 16, false⟩ =
+      .ok (true, ⟨['W', 'W', '\n', 'a', 'b', 'c', 'd'], 2, 16, false⟩, []) := by rfl
+  have hwf : WF ⟨['W', 'W', '\n', 'a', 'b', 'c', 'd'], 5, 16, false⟩ :=
+    ⟨['W', 'W', '\n', 'a', 'b'], ['c', 'd'], rfl, rfl⟩
+  have := hall charSeg C04_wideU 1 0 _ _ _ _ hwf (by decide) e1
+  have e2 : checkVerticalCol charSeg C04_wideU ⟨['W', 'W', '\n', 'a', 'b', 'c', 'd'], 5, 16, false⟩ 1 true 0 2 =
+      some "vertical-wrong-column" := by rfl
+  rw [e2] at this
+  cases this
+
+/-- buffer "abcd\nWW", cursor after "ab", one line down: lands at the end of "WW" (column 4). -/
+theorem C04_vertical_column_counterexample_down : ¬ C04_vertical_column_statement_for false := by
+  intro hall
+  have e1 : LB.moveToLineDown charSeg C04_wideU 1 0 ⟨['a', 'b', 'c', 'd', '\n', 'W', 'W'], 2, 16, false⟩ =
+      .ok (true, ⟨['a', 'b', 'c', 'd', '\n', 'W', 'W'], 7, 16, false⟩, []) := by rfl
+  have hwf : WF ⟨['a', 'b', 'c', 'd', '\n', 'W', 'W'], 2, 16, false⟩ :=
+    ⟨['a', 'b'], ['c', 'd', '\n', 'W', 'W'], rfl, rfl⟩
+  have := hall charSeg C04_wideU 1 0 _ _ _ _ hwf (by decide) e1
+  have e2 : checkVerticalCol charSeg C04_wideU ⟨['a', 'b', 'c', 'd', '\n', 'W', 'W'], 2, 16, false⟩ 1 false 0 7 =
+      some "vertical-wrong-column" := by rfl
+  rw [e2] at this
+  cases this
+
+theorem C04_vertical_column_counterexample : ¬ C04_vertical_column_statement :=
+  fun hall => C04_vertical_column_counterexample_up (hall true)
+
 /-! ### non-vacuity -/
+
+example : verticalDest ['W', 'W', '\n', 'a', 'b', 'c', 'd'] 5 1 true = some (0, 2) := by rfl
+example : verticalDest ['a', '\n', 'b', '\n', 'c', 'd'] 0 5 false = some (4, 6) := by rfl
+example : displayCol C04_wideU ['W', 'W', '\n', 'a', 'b', 'c', 'd'] 1 3 = 5 := by rfl
+/-- a landing position the oracle accepts in the counter-example's situation: after the first 'W' -/
+example : checkVerticalCol charSeg C04_wideU ⟨['W', 'W', '\n', 'a', 'b', 'c', 'd'], 5, 16, false⟩ 1 true 0 1 = none := by rfl
+/-- width-1 destination: the model's landing position is accepted -/
+example : checkVerticalCol charSeg C04_wideU ⟨['x', 'y', 'z', '\n', 'a', 'b', 'c', 'd'], 6, 16, false⟩ 1 true 0 2 = none := by rfl
+
+
+/-! ### non-vacuity (words) -/
 
 example : wordTargetFwd charSeg C04_exU ['a', ',', 'b', 'c'] 0 .start .vi 2 true = some 2 := by rfl
 example : LB.nextWordPos charSeg C04_exU ⟨['a', ',', 'b', 'c'], 0, 16, false⟩ 0 .start .vi 2 = .ok (some 2) := by rfl
